@@ -169,7 +169,7 @@ class Evaluator:
         a = f.node.args
         defaults = f.param_defaults()
         for i, p in enumerate(params):
-            if i == 0 and f.cls is not None and not f.has_decorator("staticmethod"):
+            if i == 0 and f.cls is not None and f.parent is None and not f.has_decorator("staticmethod"):
                 if f.has_decorator("classmethod"):
                     st.env[p] = args.get(p, ("ref", (concrete or f.cls).ident))
                     continue
@@ -1020,7 +1020,7 @@ class Frame:
         defaults = f.param_defaults()
         args = list(args)
         bound = {}
-        if f.cls is not None and not f.has_decorator("staticmethod") and pos:
+        if f.cls is not None and f.parent is None and not f.has_decorator("staticmethod") and pos:
             bound[pos[0]] = recv if recv is not None else T.atom("self")
             if recv is not None and isinstance(cls, ClassInfo) and recv[0] != "ref":
                 ev.types.setdefault(recv, cls)
